@@ -752,7 +752,7 @@ class Translator:
         self.tp21()
         self.ca()
         self.diag()
-        for extra in ('tp22', 'dm14', 'skel'):
+        for extra in ('tp22', 'dm14', 'skel', 'flow'):
             if hasattr(self, extra + '_items'):
                 getattr(self, extra + '_items')()
 
@@ -784,7 +784,7 @@ From J1939 Require Import Base.
 Definition le_bytes4 (v : Z) : list Z := [v mod 256; (v / 256) mod 256; (v / 65536) mod 256; (v / 16777216) mod 256].
 ''',
     'SkelGen': '''(* GENERATED by tools/py2coq.py from /repo/j1939 — do not edit *)
-From J1939 Require Import Base SkelDefs.
+From J1939 Require Import Base SkelDefs FlowDefs.
 ''',
 }
 
